@@ -2069,7 +2069,15 @@ impl<F: VfsFile> BPlusTree<F> {
 
 		// Proceed with redistribution
 		let new_separator = left_node.redistribute_to_right(right_node);
+		// The old separator's overflow chain does not belong to the new key: reset
+		// the pointer (the parent write creates a new chain if the new key needs
+		// one) and give the old pages back.
+		let stale_overflow = parent.get_overflow_at(left_idx);
 		parent.keys[left_idx] = new_separator;
+		parent.set_overflow_at(left_idx, 0);
+		if stale_overflow != 0 {
+			self.free_overflow_chain(stale_overflow)?;
+		}
 
 		self.write_node_owned(NodeType::Leaf(left_node.clone()))?;
 		self.write_node_owned(NodeType::Leaf(right_node.clone()))?;
@@ -2133,7 +2141,15 @@ impl<F: VfsFile> BPlusTree<F> {
 
 		// Proceed with redistribution
 		let new_separator = left_node.take_from_right(right_node);
+		// The old separator's overflow chain does not belong to the new key: reset
+		// the pointer (the parent write creates a new chain if the new key needs
+		// one) and give the old pages back.
+		let stale_overflow = parent.get_overflow_at(left_idx);
 		parent.keys[left_idx] = new_separator;
+		parent.set_overflow_at(left_idx, 0);
+		if stale_overflow != 0 {
+			self.free_overflow_chain(stale_overflow)?;
+		}
 
 		self.write_node_owned(NodeType::Leaf(left_node.clone()))?;
 		self.write_node_owned(NodeType::Leaf(right_node.clone()))?;
